@@ -577,6 +577,10 @@ class HTMLBinaryInputStream(HTMLUnicodeInputStream):
             if len(string) == 4:
                 encoding = bomDict.get(string)     # UTF-32
             seek = 4
+            if encoding and lookupEncoding(encoding) is None:
+                # UTF-32 is not a supported encoding: FF FE 00 00 is a
+                # UTF-16LE BOM followed by U+0000
+                encoding = None
             if not encoding:
                 encoding = bomDict.get(string[:2])  # UTF-16
                 seek = 2
